@@ -22,7 +22,9 @@ fn ops_for(k: u64) -> Vec<Op> {
                   make_op("MoveTo", &[3], 1.0), make_op("CurveTo", &[3, 2, 2], 1.0), make_op("CurveTo", &[1, 2, 3], 1.0), make_op("Leading", &[-2], 1.0), make_op("MoveText", &[1, 2], 1.0),
                   // a closed subpath followed by a curve whose first control point is the subpath's start
                   make_op("MoveTo", &[2], 1.0), make_op("LineTo", &[3], 1.0), make_op("Close", &[], 1.0), make_op("CurveTo", &[2, 3, 3], 1.0),
-                  make_op("MoveTo", &[3], 1.0), make_op("LineTo", &[2], 1.0), make_op("Close", &[], 1.0), make_op("Stroke", &[], 1.0), make_op("CurveTo", &[3, 2, 2], 1.0), make_op("Stroke", &[], 1.0)],
+                  make_op("MoveTo", &[3], 1.0), make_op("LineTo", &[2], 1.0), make_op("Close", &[], 1.0), make_op("Stroke", &[], 1.0), make_op("CurveTo", &[3, 2, 2], 1.0), make_op("Stroke", &[], 1.0),
+                  // a rectangle between a point and a curve that starts at that point (the rectangle does not move the point the `v` form refers to)
+                  make_op("MoveTo", &[2], 1.0), make_op("Rect", &[3, 1], 1.0), make_op("CurveTo", &[2, 3, 3], 1.0), make_op("Stroke", &[], 1.0)],
     }
 }
 fn dbg(ops: &[Op]) -> Vec<String> { ops.iter().map(|o| format!("{:?}", o)).collect() }
